@@ -1202,12 +1202,55 @@ def solve_degenerate(tier="quick", seed=0, only=None):
                     res = rec.result
                     if not (np.all(np.isfinite(res.x)) and np.all(np.isfinite(res.y)) and np.all(np.isfinite(res.d))):
                         failures.append(dict(label="C06:non-finite_result", input=inp, observed=str(res.status)))
+    # a step controller that never changes the step (Fixed) with a penalty FILTER: the same trial is vetoed over and
+    # over and the filter multiplies its penalty by ten each time, without bound (floating-point overflow to inf after
+    # ~316 vetoes).  The run has to end with a status or a deliberate error all the same.
+    import scipy.sparse as _sp
+    from pygradflow.problem import Problem as _Problem
+
+    class _Sqrt(_Problem):
+        """min sqrt(1 + x0^2)  [s.t. x1 = 0]: from x0 = 2 with lamb = 0.01 the single Newton step overshoots"""
+
+        def __init__(self, constrained):
+            self.constrained = constrained
+            kw = dict(cons_lb=np.array([0.0]), cons_ub=np.array([0.0])) if constrained else {}
+            super().__init__(np.full(2, -np.inf), np.full(2, np.inf), **kw)
+
+        def obj(self, x):
+            return float(np.sqrt(1 + x[0] ** 2))
+
+        def obj_grad(self, x):
+            return np.array([x[0] / np.sqrt(1 + x[0] ** 2), 0.0])
+
+        def cons(self, x):
+            return np.array([x[1]]) if self.constrained else np.array([])
+
+        def cons_jac(self, x):
+            return _sp.coo_matrix(np.array([[0.0, 1.0]])) if self.constrained else _sp.coo_matrix((0, 2))
+
+        def lag_hess(self, x, y):
+            return _sp.coo_matrix(np.array([[(1 + x[0] ** 2) ** -1.5, 0.0], [0.0, 0.0]]))
+
+    for constrained in (False, True):
+        for pol in ("ObjectiveFilter", "LagrangianFilter"):
+            variant = ("constrained" if constrained else "unconstrained") + "/" + pol
+            inp = dict(problem="sqrt_fixed_step", variant=variant)
+            if only is not None and only != inp:
+                continue
+            params = mk_params(step_control_type=enum("StepControlType", "Fixed"), penalty_update=enum("PenaltyUpdate", pol), lamb_init=0.01, iteration_limit=(600 if tier == "quick" else 2000))
+            rec = run(_Sqrt(constrained), params, np.array([2.0, 0.0]), (np.array([0.0]) if constrained else None), callbacks=False)
+            cases += 1
+            if rec.exc is not None:
+                msg = str(rec.exc)
+                ok = type(rec.exc) is Exception and msg.startswith(("Inverse step size", "Failed to evaluate initial iterate", "Line search failed"))
+                if not ok:
+                    failures.append(dict(label=f"C06:fixed_step_with_filter_penalty:{variant}:internal_error_escapes_solve:{type(rec.exc).__name__}", input=inp, observed=f"{type(rec.exc).__name__}: {msg[:200]}"))
     seen, uniq = set(), []
     for f in failures:
         if f["label"] not in seen:
             seen.add(f["label"])
             uniq.append(f)
-    return result(cases, uniq, f"degenerate problems {names} x step solvers {STEP_SOLVERS} x reporting options")
+    return result(cases, uniq, f"degenerate problems {names} x step solvers {STEP_SOLVERS} x reporting options; Fixed step control x penalty filters on an overshooting instance")
 
 
 @native("native.solve.precision", ["C06", "C05"])
